@@ -102,7 +102,10 @@ def parseOvr (j : Json) : Except String Ovr := do
     | .ok v => parseQuery v
     | .error _ => pure Query.absent
   let a ← fieldOT j "anchor"
-  pure ⟨(← fieldOT j "app_url"), (← fieldOT j "scheme"), (← fieldOT j "host"), (← fieldOT j "port"), q, a.getD []⟩
+  let tr : Bool := match j.getObjVal? "anchor_truthy" with
+    | .ok (.bool b) => b
+    | _ => false
+  pure ⟨(← fieldOT j "app_url"), (← fieldOT j "scheme"), (← fieldOT j "host"), (← fieldOT j "port"), q, a.getD [], tr⟩
 
 def errTag : Url.Err → String
   | .keyError => "keyerror"
